@@ -5,12 +5,13 @@ CONSTANTS
   Barrier = TRUE
   AcqBarrier = TRUE
   NotLeaderPanics = FALSE
+  ApplyRefuses = FALSE
   MaxReq = 2
   MaxTransfers = 2
   MaxCancels = 0
   MaxSlow = 0
   MaxLog = 3
   OpSet = {"create", "delete", "expand", "shrink", "elect"}
-INVARIANTS X04_Current
+INVARIANTS X04_NoCrash
 VIEW MCView
 CHECK_DEADLOCK FALSE
